@@ -614,6 +614,38 @@ pub fn gen_workload(seed: u64, cfg: GenCfg) -> Workload {
     Workload { shared, threads, faults, main_keeps_handles }
 }
 
+/// Threshold contention: two or three threads each evaluate the same small shared expression
+/// well over a hundred times, so that whatever counts the evaluations of an instance (tiering,
+/// statistics, a cache that changes representation after n uses) crosses its threshold while
+/// other threads are inside evaluations of the same instance. The ordinary generator produces
+/// such runs about once in a thousand; this shape is applied on top of an ordinary workload.
+pub fn add_hot_contention(w: &mut Workload, seed: u64) -> bool {
+    if w.shared.is_empty() || !w.faults.is_empty() || w.threads.len() < 2 {
+        return false;
+    }
+    let mut r = Rng::new(seed);
+    let j = (0..w.shared.len()).min_by_key(|j| w.shared[*j].n_operands).unwrap();
+    if w.shared[j].n_operands > 16 {
+        let n = r.range(2, 10);
+        let kind = w.shared[j].kind;
+        w.shared[j].text = gen_text(&mut r, kind, n);
+        w.shared[j].n_operands = n;
+        w.shared[j].tower = false;
+    }
+    let n_hot = r.range(2, w.threads.len().min(3));
+    let first = r.below(w.threads.len());
+    for i in 0..n_hot {
+        let n_threads = w.threads.len();
+        let t = &mut w.threads[(first + i) % n_threads];
+        // not behind the thread's Drop of this handle
+        let limit = t.iter().position(|op| matches!(op, Op::Drop { j: jj } if *jj == j)).unwrap_or(t.len());
+        let pos = r.below(limit + 1);
+        let k = [130u8, 200, 255][r.below(3)];
+        t.insert(pos, Op::EvalBurst { j, point: r.below(24) as u32, mode: r.below(4) as u8, k });
+    }
+    true
+}
+
 // ---------------------------------------------------------------------------------------------
 // first-use workloads (run as the first simulated run of a fresh process)
 // ---------------------------------------------------------------------------------------------
